@@ -238,7 +238,9 @@ func VerifC16() {
 // concurrently under limits 1..2, the consumer taking a ready snapshot whenever all downloaders are blocked or done.
 // A downloaded blob stays in memory from the end of Load until its downloader has decoded it,
 // which it can only do after acquiring a decompression token. So at the end of every Load
-//     blobs in memory >= completed Loads - decompression tokens ever acquired
+//
+//	blobs in memory >= completed Loads - decompression tokens ever acquired
+//
 // and the right-hand side must not exceed memory_downloaded_snapshots. (Decompression tokens
 // ever acquired = tokens out now + tokens returned by the consumer; the consumer counts before
 // it closes, which can only over-estimate: no false alarm.) Afterwards the consumer drains and
